@@ -50,14 +50,25 @@ class Meta(dict):
         return super().__getitem__(item)
 
     def update(self, *args, **kwargs):
+        other = {}
         if args:
             if len(args) > 1:
                 raise ValueError('Only one argument can be input')
             other = dict(args[0])
-            for key in other:
-                self[key] = other[key]
+        # validate all keys before storing anything so that a rejected
+        # update leaves the object unchanged
+        for key in (*other, *kwargs):
+            key = self.key_mapping.get(key, key)
+            if key not in self.valid_keys:
+                raise KeyError(f'{key} is not a valid key for this class.')
+        for key in other:
+            self[key] = other[key]
         for key in kwargs:
             self[key] = kwargs[key]
+
+    def __ior__(self, other):
+        self.update(other)
+        return self
 
     def setdefault(self, key, value=None):
         if key not in self:
